@@ -203,7 +203,7 @@ def _ip_tcp(payload, rng, sport, dport, seq):
     return ip + tcp + payload
 
 
-def write_pcapng(messages, rng, noise=True, ether=None, mixed=None):
+def write_pcapng(messages, rng, noise=True, ether=None, mixed=None, pad=0):
     """pcapng capture of TPM traffic: one TCP packet per message, raw-IP or Ethernet (loopback MACs)
     framing, runt packets (< 10 payload bytes, e.g. mssim platform commands) interleaved, optional
     4-byte mssim trailer after responses, option blocks."""
@@ -214,6 +214,16 @@ def write_pcapng(messages, rng, noise=True, ether=None, mixed=None):
     opts = b""
     if noise and rng.random() < 0.5:
         opts = _opt(3, b"Linux") + _opt(4, b"tpmstream-verif") + _opt(0, b"")
+    if pad:
+        # a long section comment (capture tools record command lines, host descriptions ...): the capture gets tens of kB
+        # long although it carries little traffic
+        c = b""
+        left = pad
+        while left > 0:
+            n = min(left, 65000)
+            c += _opt(1, bytes(0x20 + (j * 7) % 90 for j in range(n)))
+            left -= n
+        opts = c + (opts or _opt(0, b""))
     out = _block(0x0A0D0D0A, struct.pack("<IHHq", 0x1A2B3C4D, 1, 0, -1) + opts)
     idb_opts = (_opt(2, b"lo") + _opt(0, b"")) if (noise and rng.random() < 0.5) else b""
     out += _block(1, struct.pack("<HHI", 1 if ether else 101, 0, 262144) + idb_opts)
